@@ -112,7 +112,8 @@ def describe(tier):
     return {
         "rule": "all (max,min) in B x B with min<=0, min<=max, representable by some NumPy integer type, plus the one-argument form for every "
         "max in B (incl. negative); B = {c-1,c,c+1 for each constant c in fit_dtype's AST} u {+-2^k, +-2^k+-1, k<=64} u {0,+-1} u one interior point "
-        "per gap. Non-trivial: min < 0 < max (both arguments decide) or a one-argument negative max. Oracle: narrowest numpy.iinfo type of the required signedness.",
+        "per gap. Plus the caller whose counter must reach the number of columns: collapsed() on indexes with %r columns (rows: all low / all common / one high among low / one common among low / one high among common / alternating), "
+        "five value triples and five precedence orders, against 'first listed value present in the row, else the last'. Non-trivial: min < 0 < max (both arguments decide) or a one-argument negative max. Oracle: narrowest numpy.iinfo type of the required signedness." % (COLLAPSE_COLS[tier],),
         "bounds": {"ast_constants": [str(c) for c in consts], "threshold_only": ok, "notes": notes, "grid_size": len(grid(consts))},
         "exhaustive": True,
         "assumptions": [
@@ -129,7 +130,50 @@ def blocks(tier):
     step = max(1, n // 32)
     out = [("two", {"i0": i, "i1": min(n, i + step)}) for i in range(0, n, step)]
     out.append(("one", {}))
+    out += [("collapse", {"cols": c}) for c in COLLAPSE_COLS[tier]]
     return out
+
+
+# The caller named in the statement whose counter must reach the NUMBER OF COLUMNS: collapsed() on indexes whose column count sits on a dtype boundary.
+COLLAPSE_COLS = {"quick": [2, 127, 128, 129, 255, 256, 257], "thorough": [2, 127, 128, 129, 255, 256, 257, 32767, 32768, 65535, 65536, 65537]}
+COLLAPSE_VALUES = [(1, 0, -1), (2, 0, 1), (1, 0, 200), (-1, 0, -2), (300, 5, 7)]   # (high, common, low)
+
+
+def check_collapse(cols, acc):
+    import itertools
+
+    from catii.iindexes import iindex
+
+    for H, C, L in COLLAPSE_VALUES:
+        # rows: all L / all common / one H among L / one common among L / one H among common / half L half common
+        rows = [
+            {c: L for c in range(cols)},
+            {},
+            {c: (H if c == cols // 2 else L) for c in range(cols)},
+            {c: L for c in range(cols) if c != cols - 1},
+            {0: H},
+            {c: L for c in range(0, cols, 2)},
+        ]
+        entries = {}
+        for r, cells in enumerate(rows):
+            for c, v in cells.items():
+                entries.setdefault((v, c), []).append(r)
+        entries = {k: numpy.array(v, dtype=numpy.uint32) for k, v in entries.items()}
+        for prec in ([H, C, L], [H, L], [C, H, L], [L, C, H], [H, L, C]):
+            case = {"collapse_cols": cols, "values": [H, C, L], "precedence": prec}
+            idx = iindex(dict(entries), C, (len(rows), cols))
+            try:
+                got = idx.collapsed(list(prec)).to_array(dtype=numpy.int64).tolist()
+            except Exception as e:  # noqa
+                acc.violation("collapsed:raised", case, repr(e))
+                continue
+            want = []
+            for cells in rows:
+                present = set(cells.values()) | ({C} if len(cells) < cols else set())
+                want.append(next((p for p in prec if p in present), prec[-1]))
+            if got != want:
+                acc.violation("collapsed:wrong", case, "collapsed(%r) over %d columns gives %r, expected %r" % (prec, cols, got, want))
+            acc.case(("collapse", cols, H, C, L, tuple(prec)), nontrivial=cols > 2, outcome=("collapse", cols), sample=case)
 
 
 def check(mx, mn, acc, one_arg=False):
@@ -167,6 +211,9 @@ def check(mx, mn, acc, one_arg=False):
 def run_block(family, p, acc):
     consts, ok, notes = analyse()
     B = grid(consts)
+    if family == "collapse":
+        check_collapse(p["cols"], acc)
+        return
     if family == "two":
         for mx in B[p["i0"]:p["i1"]]:
             for mn in B:
@@ -185,6 +232,11 @@ def replay(case, site=None):
     from ..core import Acc
 
     acc = Acc(ID, [], stop_at_first=False)
+    if "collapse_cols" in case:
+        check_collapse(case["collapse_cols"], acc)
+        for v in acc.violations:
+            print("  %s %s :: %s" % (v["site"], v["case"], v["detail"]))
+        return bool(acc.violations)
     mx = int(case["max"])
     if case.get("min") is None:
         check(mx, None, acc, one_arg=True)
